@@ -183,6 +183,30 @@ PROPS["C14"] = {
     ],
 }
 
+PROPS["C18"] = {
+    "features": ["c18"],
+    "modules": ["c18_generators::"],
+    "functions": [
+        "<ec_core::distributions::collection::Generator<C> as Distribution<Vec<T>>>::sample, ConvertToCollectionGenerator::{into,to}_collection_generator",
+        "ec_core::distributions::wrappers::owned::OneOfCloning::{new,sample,num_choices}, wrappers::choose_cloning::ChooseCloning::{new,sample,num_choices}",
+        "all 14 IntoDistribution / ToDistribution impls of ec_core::distributions::conversion (array, &array, Vec, &Vec, slice; owning / borrowing / cloning)",
+        "uniform_distribution_of! (both arms), ChoicesDistribution for rand::distr::slice::Choose",
+        "ec_linear::genome::bitstring::Bitstring::random; IndividualGenerator-based population generator",
+        "rand 0.9.0 Uniform<usize>::sample and distr::slice::Choose::sample on the symbolic generator",
+    ],
+    "bounds": {
+        "quick": "source collections of N = 0..=4 members in each of the 14 conversion flavours plus the macro: N = 0 rejected with EmptySlice at construction, "
+                 "otherwise num_choices = N, the sample is a member (the very element, by ptr::eq, for the borrowing flavours), and the returned index is "
+                 "floor(w*N/2^32) of the first word w with (w*N mod 2^32) >= (2^32 mod N) -- rand's exactly-uniform index law, every member has floor(2^32/N) "
+                 "accepted words; streams = 3 symbolic words then all-ones; collection generators of size 0..=2 over a probe element generator, Bitstring::random, population generator",
+        "thorough": "as quick plus collection sizes 3 and 4",
+    },
+    "outside": "collections with more than 4 members / generators of more than 4 elements; streams whose first 3 words are all rejected by rand's rejection loop (probability < 2^-90 for N <= 4); "
+               "that floor(2^32/N) accepted words per member means equal probability is Lemire's argument (paper step)",
+    "assumptions": ["rand 0.9.0 UniformUsize / Choose algorithms define 'uniform variate'; version guard on Cargo.lock"],
+    "cover_replay_tests": {},
+}
+
 
 def caps(cfg, tier):
     return cfg.get("caps", DEFAULT_CAPS)[tier] if isinstance(cfg.get("caps"), dict) else DEFAULT_CAPS[tier]
